@@ -256,7 +256,7 @@ class Evaluator:
                     return conj if op in ('Eq', 'eq') else ('unop', 'Not', conj)
                 for x, y in ((a, b), (b, a)):
                     xs = drop_lv(x)
-                    if xs[0] == 'call' and call_name(xs) in ('max', 'min') and len(xs[2]) == 2:
+                    if xs[0] == 'call' and call_name(xs) in ('max', 'min') and len(xs[2]) == 2 and not cinfo(xs[1])['local']:
                         p, q = xs[2]
                         ys = drop_lv(y)
                         mx = call_name(xs) == 'max'
